@@ -101,18 +101,6 @@ def NoPosOnlyKwClash (s : ArgSpec) (ca : CallArgs) : Prop := ∀ kv ∈ ca.kw, k
 instance (s : ArgSpec) (ca : CallArgs) : Decidable (NoPosOnlyKwClash s ca) := by
   unfold NoPosOnlyKwClash; infer_instance
 
-/-- no keyword reaches the library's `wrapped(func, *args, **kwargs)` under the name of its first parameter: that
-parameter is positional-only (then nothing can collide), or the callable has no keyword-only parameter of that
-name and the call passes no keyword of that name other than to a positional-or-keyword parameter (those are
-forwarded positionally) -/
-def NoCallerNameClash (s : ArgSpec) (ca : CallArgs) : Prop :=
-  PromVerif.Generated.Wrappers.callerFuncPosOnly = true ∨
-  (PromVerif.Generated.Wrappers.callerFuncParam ∉ s.kwonly ∧
-    ∀ kv ∈ leftover s ca.kw, kv.1 ≠ PromVerif.Generated.Wrappers.callerFuncParam)
-
-instance (s : ArgSpec) (ca : CallArgs) : Decidable (NoCallerNameClash s ca) := by
-  unfold NoCallerNameClash; infer_instance
-
 /-- distinct parameter names (a `SyntaxError` otherwise) -/
 def WF (s : ArgSpec) : Prop := (s.posonly ++ s.pos ++ s.kwonly).Nodup
 
